@@ -4,8 +4,10 @@ PROP = dict(
     technique="model-based stateful PBT: naive scan of the model chain's receipts as oracle; page-concatenation metamorphic relation over chunk sizes and scan limits",
     level_text=("Exploration: store/revert/restart histories on chains that cross the REAL 8192-block bloom-index window (base chain built once per "
                 "process), queries with generated filters/ranges/chunk sizes/scan limits/pre-confirmed blocks compared event by event with a naive scan."),
-    rule=("see test rule; distinct = SHA-256 of the rendered history incl. block hashes and query parameters"),
+    rule=("see test rule; a quarter of the cases are busy chains (emitters and keys from pools of dozens of values, one block in five with 10-30 "
+          "transactions of 2-5 events: events blooms with hundreds of set bits, labels block-with-more-than-256/1024-bloom-bits); "
+          "distinct = SHA-256 of the rendered history incl. block hashes and query parameters"),
     assumptions=["trailing empty key positions are not generated (spec ambiguous for events with fewer keys than filter positions)",
-                 "LRU eviction of the window cache (>16 windows) is not reached"],
+                 "LRU eviction of the window cache (>16 windows) is reached in the thorough tier only (TestPropEventsManyWindows: 18 real windows)"],
     runs=[dict(run="^Test(Prop|Known)")],
 )
